@@ -47,15 +47,17 @@ CLASSES = (['tr-m-minus1:' + a for a in ('surf-tr', 'trcl-num', 'fill-num',
                                          'trcl-inline13', 'fill-inline13',
                                          'trcl-star13', 'fill-star13',
                                          'star-tr-card', 'tr-with-jumps')]
-           + ['lattice-no-option', 'lattice-wrong-dim', 'lattice-extra-range']
+           + ['lattice-no-option', 'lattice-wrong-dim', 'lattice-extra-range',
+              'lattice-range-wrong-slot', 'lattice-range-reversed']
            + [f'surf-few:{k}' for k in ELEM_KINDS]
            + [f'surf-many:{k}' for k in ELEM_KINDS]
            + [f'macro-few:{k}' for k in MACRO_KINDS]
            + [f'macro-many:{k}' for k in MACRO_KINDS]
-           + ['unknown-mnemonic']
+           + ['unknown-mnemonic', 'unknown-mnemonic-internal']
            + [f'facet-beyond:{k}' for k in MACRO_KINDS
               if k not in ('sph', 'ell')]
-           + ['facet-on-plain', 'fill-array-short', 'fill-array-long',
+           + ['facet-zero', 'facet-on-plain', 'fill-array-short',
+              'fill-array-long', 'fill-array-surplus-is-tr',
               'fill-array-long-by-repeat', 'fill-array-short-by-repeat',
               'imp-unequal', 'imp-unequal-same-tokens', 'imp-short',
               'lattice-arg-malformed']
@@ -220,7 +222,8 @@ def build_pair(case):
             pos = deck.cli.index('--lattice')
             ndim = len(deck.cli[pos + 1].split(',')) - 1
             if (head == 'lattice-wrong-dim' and ndim == 1) or \
-                    (head == 'lattice-extra-range' and ndim == 3):
+                    (head in ('lattice-extra-range',
+                              'lattice-range-wrong-slot') and ndim == 3):
                 continue
             break
         bad = copy.deepcopy(deck)
@@ -240,6 +243,31 @@ def build_pair(case):
             spec.append(f'{rng.randint(-2, 0)}:{rng.randint(1, 2)}')
             bad.cli[pos + 1] = ','.join(spec)
             return deck, bad, f'--lattice {bad.cli[pos + 1]} for a {ndim}-D lattice'
+        if head == 'lattice-range-wrong-slot':
+            # as many non-trivial ranges as the lattice has directions, but
+            # one of them sits in a slot the lattice does not have
+            if ndim == 3:
+                return None
+            ranges = spec[1:] + ['0:0'] * (3 - ndim)
+            k = rng.randrange(ndim)
+            moved = ranges[k]
+            low = moved.split(':')[0]
+            if moved.split(':')[0] == moved.split(':')[1]:
+                moved = f'{low}:{int(low) + 1}'
+            ranges[k] = f'{low}:{low}'
+            ranges[rng.randrange(ndim, 3)] = moved
+            bad.cli[pos + 1] = ','.join([spec[0]] + ranges)
+            return deck, bad, (f'--lattice {bad.cli[pos + 1]} for a {ndim}-D '
+                               'lattice')
+        if head == 'lattice-range-reversed':
+            k = rng.randrange(1, len(spec))
+            low, high = (int(v) for v in spec[k].split(':'))
+            if low == high:
+                high = low + 1
+            spec[k] = f'{high}:{low}' if rng.random() < 0.7 else \
+                f'{high + 1}:{low - 1}'
+            bad.cli[pos + 1] = ','.join(spec)
+            return deck, bad, f'--lattice {bad.cli[pos + 1]} (empty range)'
     if head in ('surf-few', 'surf-many', 'macro-few', 'macro-many'):
         macro = head.startswith('macro')
         deck = one_surface_deck(rng, arg, macro)
@@ -267,6 +295,25 @@ def build_pair(case):
         bad.surfs[0].kind = rng.choice(['qx', 'pw', 'sphere', 'kk', 'c/w',
                                         'tt', 'plane'])
         return deck, bad, f'mnemonic {bad.surfs[0].kind}'
+    if head == 'unknown-mnemonic-internal':
+        # names of the converter's internal surface types (general cylinder,
+        # cone, torus): they are not MCNP mnemonics
+        deck = one_surface_deck(rng, 'c/z', False)
+        bad = copy.deepcopy(deck)
+        kind = rng.choice(['c', 'k', 'k', 't'])
+        bad.surfs[0].kind = kind
+        bad.surfs[0].params = {'c': [0, 0, 0, 0, 0, 1, 1.5],
+                               'k': [0, 0, 0, 0, 0, 1, 0.5] +
+                               ([1] if rng.random() < 0.5 else []),
+                               't': [0, 0, 0, 0, 0, 1, 4, 1, 1]}[kind]
+        return deck, bad, f'mnemonic {kind}'
+    if head == 'facet-zero':
+        kind = rng.choice([k for k in MACRO_KINDS if k not in ('sph', 'ell')])
+        deck = c03.build(_Sub(case, f'{kind}|{rng.choice(MACRO_FAMILIES[kind])}'))
+        bad = copy.deepcopy(deck)
+        cel = bad.cells[rng.randrange(2)]
+        cel.geom = M.AND(M.S(rng.choice([1, -1]), facet=0), cel.geom[2])
+        return deck, bad, f'facet 0 of a {kind}'
     if head == 'facet-beyond':
         deck = c03.build(_Sub(case, f'{arg}|{rng.choice(MACRO_FAMILIES[arg])}'))
         nfac = ref.n_facets(arg, deck.surfs[0].params)
@@ -307,6 +354,29 @@ def build_pair(case):
             [blat.fill.array[keep - 1]] * reps
         return deck, bad, (f'FILL array {" ".join(blat.fill.render_array)} '
                            f'expands to {keep + reps} entries instead of {size}')
+    if head == 'fill-array-surplus-is-tr':
+        # one or three entries too many, the first of which is the number of
+        # an existing TR card (or a displacement): not a fill transformation
+        from ..gen_surf import tr_card
+        from ..mcnp_ref import Motion
+        deck = (gen_lat.build_rect if rng.random() < 0.6 else
+                gen_lat.build_hex)(rng, rng.choice(['array-own', 'ortho-2d'])
+                                   if rng.random() < 0.6 else 'array-zero')
+        lat = deck.cell(gen_lat.LAT_CELL)
+        if lat.fill.array is None or lat.fill.tr is not None:
+            return None
+        extra = [v for v in lat.fill.array if v][:1] or [1]
+        if rng.random() < 0.4:
+            extra = extra + [0, 0]
+        if extra[0] not in [t.id for t in deck.trs]:
+            deck.trs.append(tr_card(rng, extra[0], Motion([0.3, 0.0, 0.0]),
+                                    '3'))
+        bad = copy.deepcopy(deck)
+        blat = bad.cell(gen_lat.LAT_CELL)
+        blat.fill.array = blat.fill.array + extra
+        blat.fill.render_array = None
+        return deck, bad, (f'FILL array followed by {extra} (TR{extra[0]} '
+                           'exists)')
     if head in ('fill-array-short', 'fill-array-long'):
         deck = (gen_lat.build_rect if rng.random() < 0.6 else
                 gen_lat.build_hex)(rng, 'array-own' if rng.random() < 0.5
